@@ -2645,7 +2645,7 @@ def translate_function(self, target):
     return self.done[target.qualname]
 
 
-def generate(repo_root=None, overrides=None, targets=None):
+def generate(repo_root=None, overrides=None, targets=None, strict=False):
     """the full text of lean/Tdms/Generated/Code.lean for the source tree at `repo_root`
     (`overrides`: {relative path: source text}, used by the self test)"""
     src = Source(repo_root or REPO_DEFAULT, overrides)
@@ -2654,7 +2654,15 @@ def generate(repo_root=None, overrides=None, targets=None):
     tr = Translator(src, tgts)
     defs = []
     for t in tgts:
-        defs.append(tr.translate_function(t))
+        try:
+            defs.append(tr.translate_function(t))
+        except Untranslatable as ex:
+            if strict:
+                raise
+            # The definition is left out: the `*_tied` theorem of this function then fails to build (unknown identifier), which
+            # breaks the obligations of the properties that depend on this function and of no other property.
+            name = getattr(t, "lean_name", None) or getattr(t, "name", None) or str(t)
+            defs.append("/- UNTRANSLATABLE %s (line %s): %s -/" % (name, ex.lineno, str(ex.reason).replace("-/", "- /")))
     out = ["import Tdms.Generated.CodePrelude", "",
            "/-! GENERATED by harness/pyast2lean.py from the Python source of npTDMS — do not edit.",
            "Each definition is the translation of one Python function (shallow embedding, see the module",
